@@ -199,7 +199,7 @@ def variable_traversal(ctx, rule: str):
               "the layer must be looked up with the part before the FIRST dot (`when.dt.year` lives where `when` lives)")
 
 
-def r5(ctx):
+def r5(ctx, _shared=True):
     P = ctx.project
     f = P.func(c14.c01.OPS).locals_named("insert_unused_terms")
     ctx.look(3)
@@ -230,7 +230,17 @@ def r5(ctx):
               ctx.construct(sg, text="spec context"), "the parser context must be the materializer's layered_context")
     # the left-hand-side scan relies on the `~` split performed by the token rewriters for every parser configuration (= C01.R4 / C01.R10)
     from .shared import relabel
-    relabel(ctx, "C17.R5", c14.c01.r4, c14.c01.r10)
+    if _shared:
+        relabel(ctx, "C17.R5", c14.c01.r4, c14.c01.r10)
+
+
+def _r5_parts():
+    from .shared import relabel
+    from .shared import relabel_parts
+    return [lambda c: r5(c, _shared=False)] + relabel_parts("C17.R5", c14.c01.r4, c14.c01.r10)
+
+
+r5.parts = _r5_parts
 
 
 def r6(ctx):
